@@ -474,6 +474,10 @@ def run(chk):
     chk.ob("C04.R3:who-may-enter-exit", "span frames are entered/exited only through the RAII guard (ids revert on every exit path)", who_may)
 
     common.hex_id_fromvalue_rule(chk, P, "C04")
+    # incoming ids given as hex strings: the id hex codec (shared with C15); a span the filter rejected never completes (shared with C05)
+    from . import c15, c05
+    c15.id_hex_rules(chk, P, "C04.hex", span_only=True)
+    c05.completion_rules(chk, P, "C04.completion")
     # macro/runtime boundary: what the expansion passes at each named hook parameter (read off emit_macros' quote! templates)
     from . import quotes
     quotes.boundary_rule(chk, P, "C04", {"__private_begin_span"}, 3)
